@@ -50,6 +50,10 @@ Theorem C15_accepted_is_balanced : forall ts ns, parse_tokens ts = POk ns -> bal
 Proof. exact accepted_is_balanced. Qed.
 Print Assumptions C15_accepted_is_balanced.
 
+Theorem C15_unbalanced_rejected : forall ts, bal 0 (map (fun t => (tk_type t, tk_val t)) ts) = false -> forall ns, parse_tokens ts <> POk ns.
+Proof. exact unbalanced_rejected. Qed.
+Print Assumptions C15_unbalanced_rejected.
+
 (* a declaration whose property name is not followed by a colon is rejected; so is a string that is still open when the
    tokens end *)
 Theorem C15_declaration_needs_colon : forall f rec t c r1,
